@@ -3,6 +3,8 @@ package checks
 import (
 	"fmt"
 	"strings"
+	"unicode"
+	"unicode/utf8"
 
 	lucene "github.com/grindlemire/go-lucene"
 	"github.com/grindlemire/go-lucene/internal/lex"
@@ -207,6 +209,24 @@ func c16Eval(c core.Case) (res core.Result) {
 		}
 		rec()
 	}
+	// must-lex: decided without the lexer's rules — words made of letters, digits and underscores
+	// (optionally a leading minus before a digit run), separated by blanks, are exactly those tokens
+	if words, ok := independentWords(in); ok {
+		var got []string
+		bad := false
+		for _, t := range toks {
+			if t.typ == lex.TEOF {
+				break
+			}
+			if t.typ != lex.TLiteral {
+				bad = true
+			}
+			got = append(got, t.val)
+		}
+		if bad || strings.Join(got, "\x00") != strings.Join(words, "\x00") {
+			add("words", "plain-words-mislexed", fmt.Sprintf("tokens %q (types %v)", got, tokTypes(toks)), fmt.Sprintf("the literal tokens %q", words))
+		}
+	}
 	// must-fail
 	hasErr := last.typ == lex.TErr
 	mustFail := ""
@@ -276,4 +296,47 @@ func independentMustFail(in string) string {
 		}
 	}
 	return ""
+}
+
+func tokTypes(ts []lexTok) []string {
+	var out []string
+	for _, t := range ts {
+		out = append(out, t.typ.String())
+	}
+	return out
+}
+
+// independentWords: if the input consists only of blank-separated words over letters, digits
+// and underscore (a word may instead be a minus sign followed by digits), none of them a
+// keyword, it returns the words.
+func independentWords(in string) ([]string, bool) {
+	if !utf8.ValidString(in) || strings.TrimSpace(in) == "" {
+		return nil, false
+	}
+	fields := strings.FieldsFunc(in, func(r rune) bool { return r == ' ' || r == '\t' || r == '\r' || r == '\n' })
+	for _, f := range fields {
+		rs := []rune(f)
+		body := rs
+		if rs[0] == '-' {
+			if len(rs) == 1 {
+				return nil, false
+			}
+			body = rs[1:]
+			for _, r := range body {
+				if !unicode.IsDigit(r) {
+					return nil, false
+				}
+			}
+		}
+		for _, r := range body {
+			if !(r == '_' || unicode.IsLetter(r) || unicode.IsDigit(r)) {
+				return nil, false
+			}
+		}
+		switch strings.ToUpper(f) {
+		case "AND", "OR", "NOT", "TO":
+			return nil, false
+		}
+	}
+	return fields, true
 }
